@@ -425,6 +425,19 @@ def boundary_table(rng, nbig, V=16):
     return case
 
 
+def dtype_boundary_table(V, nbig, sos):
+    """order-2 table, S = V (+1 if sos is out of vocabulary) unigrams (only unigram 0 listed, the others are
+    auto-completed) and nbig bigrams (w, 0), all children of unigram node 0: the largest offset written is
+    S + nbig (the childless node 1 right after the parent of all children; S + 1 for node 0 when nbig = 1),
+    the value _build_trie must size the offsets dtype for (F33: it used S + nbig - 1)."""
+    d1 = [[[0], -8, -4]]
+    d2 = [[[w, 0], val_of_key((w, 0)), 0] for w in range(nbig)]
+    case = dict(kind="lm", V=V, sos=sos, dicts=[d1, d2])
+    case["queries"] = [dict(hist=[[0, 1]], B=2, idx=1), dict(hist=[[0], [1]], B=1, idx=None),
+                       dict(hist=[[1, 0], [0, 0]], B=2, idx=[2, 1])]
+    return case
+
+
 def deep_table(rng):
     """order-3 table whose level-2 / level-3 offsets exceed 255 (int16 offsets, several levels)"""
     V = 7
@@ -919,6 +932,11 @@ def gen_cases(chk):
         cases.append((c, "corpus"))
     for nbig in (253, 254, 255, 256):
         cases.append((boundary_table(rng, nbig), "boundary"))
+    # offsets dtype boundary (F33): S + T - 1 in {254, 255, 256} with few bigrams under one parent, and
+    # 254..256 unigrams + 1 bigram; sos in and out of the vocabulary
+    for V, nbig, sos in ((253, 2, 0), (254, 2, 0), (255, 2, 0), (254, 1, 0), (255, 1, 0), (256, 1, 0),
+                         (253, 2, 253), (252, 3, -1), (254, 1, 254)):
+        cases.append((dtype_boundary_table(V, nbig, sos), "boundary"))
     cases.append((deep_table(rng), "boundary"))
     for _ in range(150 if chk.tier == "thorough" else 24):
         cases.append((fanout_table(rng), "fanout"))
